@@ -199,7 +199,16 @@ func vhSignChain() {
 	vClockFixed(1709640000)
 	nk := vParam("KEYALGS", 3)
 	d := &vDB{}
-	from, until := time.Unix(1709640000, 0), time.Unix(1909640000, 0)
+	// validity: inside the UTCTime range, across the 2049/2050 boundary, or
+	// entirely in the GeneralizedTime range (thorough: drawn; quick: first two)
+	vals := [][2]int64{{1709640000, 1909640000}, {2493072000, 2556144000}, {2556144000, 4070908800}}
+	vsel := vChoose("validity", vParam("VALIDITIES", 2))
+	from, until := time.Unix(vals[vsel][0], 0), time.Unix(vals[vsel][1], 0)
+	vValidityRef = [][2][]byte{
+		{vTLV(0x17, []byte("240305120000Z")), vTLV(0x17, []byte("300707073320Z"))},
+		{vTLV(0x17, []byte("490101000000Z")), vTLV(0x18, []byte("20510101000000Z"))},
+		{vTLV(0x18, []byte("20510101000000Z")), vTLV(0x18, []byte("20990101000000Z"))},
+	}[vsel]
 	val := config.CertificateValidity{From: from, Until: until, IsStatic: true, IsSet: true}
 
 	rootKA := vKeyAlgChoices[vChoose("rootKey", nk)]
@@ -230,6 +239,13 @@ func vhSignChain() {
 	}
 	subCfg := &config.CertificateContent{Alias: "sub", Issuer: "root", Subject: vDN(vPrintable("subcn", 2), false), Validity: val,
 		KeyAlgorithm: subKA, SignatureAlgorithm: vSigRefs[s].alg, SerialNumber: 12, Extensions: exts}
+	switch vChoose("uniqueIds", 3) {
+	case 1:
+		subCfg.IssuerUniqueId = asn1.BitString{Bytes: vBytes("iuid", 2), BitLength: 16}
+	case 2:
+		subCfg.IssuerUniqueId = asn1.BitString{Bytes: vBytes("iuid", 1), BitLength: 8}
+		subCfg.SubjectUniqueId = asn1.BitString{Bytes: vBytes("suid", 3), BitLength: 24}
+	}
 	d.ents = append(d.ents, &vEnt{alias: "sub", cfg: subCfg, meta: &Metadata{}, art: &BuildArtifact{}, parent: 0})
 	subArt, err := GenerateArtifacts(d, "sub")
 	if vSigRefs[s].rsa != vIsRsaAlg(rootKA) {
@@ -264,6 +280,8 @@ func vhSignChain() {
 	vC02Structure(crt, subArt.PrivateKey)
 }
 
+var vValidityRef [2][]byte
+
 // vC02Structure: the gopki-owned part of C02 on an emitted certificate.
 func vC02Structure(crt *cert.Certificate, key crypto.PrivateKey) {
 	tbs := crt.TBSCertificate
@@ -287,7 +305,7 @@ func vC02Structure(crt *cert.Certificate, key crypto.PrivateKey) {
 	body = append(body, vMustDer(tbs.SerialNumber)...)
 	body = append(body, inner...)
 	body = append(body, vMustDer(tbs.Issuer)...)
-	body = append(body, vTLV(0x30, vCat(vTLV(0x17, []byte("240305120000Z")), vTLV(0x17, []byte("300707073320Z"))))...)
+	body = append(body, vTLV(0x30, vCat(vValidityRef[0], vValidityRef[1]))...)
 	body = append(body, vMustDer(tbs.Subject)...)
 	body = append(body, vMustDer(tbs.PublicKey)...)
 	if len(tbs.IssuerUniqueId.Bytes) > 0 {
